@@ -148,6 +148,17 @@ def tokens(t):
     if k == "noop":
         return ["noop", L(t["shape"])]
     if k == "l1reg":
+        if t.get("w") is not None:
+            # L1Reg with an array lamda (per-entry weights w): g(x) = sum_i w_i |x_i| is separable, so the model's value
+            # is the Stack of one scalar-lamda L1Reg per entry (row-major), put back into the input's shape
+            n = len(t["w"])
+            st = ["stack", str(n)]
+            for v in t["w"]:
+                st += ["l1reg", "1", v]
+            if list(t["shape"]) == [n]:
+                return st
+            eye = "|".join(CL([("1" if i == j else "0", "0") for j in range(n)]) for i in range(n))
+            return ["unitary", L(t["shape"]), str(n), eye] + st
         return ["l1reg", L(t["shape"]), t["lamda"]]
     if k == "l2reg":
         y = "none" if t["y"] is None else CL(t["y"])
@@ -212,7 +223,28 @@ def describe(t):
     return k + ("(" + ",".join(describe(x) for x in c) + ")" if c else "")
 
 
-def _arr(zs, shape, cplx, scalar_ok=True, exact=False):
+LAYOUTS = ("C", "F", "strided", "rev")
+
+
+def relayout(a, layout):
+    """the same array VALUE in another memory layout (the property quantifies over arrays, not over their strides):
+    Fortran order, a strided view into a larger buffer, a view with a negative stride"""
+    a = np.asarray(a)
+    if layout in (None, "C") or a.ndim == 0:
+        return a
+    if layout == "F":
+        return np.asfortranarray(a)
+    if layout == "strided":
+        big = np.zeros(a.shape[:-1] + (2 * a.shape[-1] + 1,), dtype=a.dtype)
+        v = big[..., 1::2]
+        v[...] = a
+        return v
+    if layout == "rev":
+        return np.ascontiguousarray(a[..., ::-1])[..., ::-1]
+    raise ValueError(layout)
+
+
+def _arr(zs, shape, cplx, scalar_ok=True, exact=False, layout=None):
     """bias / bound parameter for the real class: a scalar when all entries agree (exercises broadcasting)"""
     if exact:
         a = np.array([Fr(z[0]) for z in zs], dtype=object).reshape(shape)
@@ -220,7 +252,31 @@ def _arr(zs, shape, cplx, scalar_ok=True, exact=False):
     if scalar_ok and len(set((str(z[0]), str(z[1])) for z in zs)) == 1:
         z = zs[0]
         return complex(float(Fr(z[0])), float(Fr(z[1]))) if cplx else float(Fr(z[0]))
-    return to_float(zs, shape, cplx)
+    return relayout(to_float(zs, shape, cplx), layout)
+
+
+def weights_array(t, layout=None):
+    """the ndarray handed to L1Reg as `lamda` for a tree with per-entry weights: dtype float64 / float32 / int64 (the values
+    are exactly representable in it by construction), optionally only the last axis (broadcast), in the given layout.
+    A fresh array on every call: the oracle's reference never shares memory with what the object under test holds."""
+    spec = t.get("wspec") or {}
+    dt = dict(float64=np.float64, float32=np.float32, int64=np.int64)[spec.get("dtype", "float64")]
+    vals = [Fr(v) for v in t["w"]]
+    sh = list(t["shape"])
+    if spec.get("bcast"):
+        vals, sh = vals[:sh[-1]], sh[-1:]
+    if dt is np.int64:
+        a = np.array([int(v) for v in vals], dtype=np.int64).reshape(sh)
+    else:
+        a = np.array([float(v) for v in vals], dtype=dt).reshape(sh)
+    return relayout(a, spec.get("layout", layout))
+
+
+def wfloat(t, shape=None):
+    """float64 reference copy of the weights of an l1reg tree (scalar lamda: a Python float)"""
+    if t.get("w") is None:
+        return float(Fr(t["lamda"]))
+    return np.array([float(Fr(v)) for v in t["w"]]).reshape(t["shape"] if shape is None else shape)
 
 
 def make_linop(t):
@@ -244,8 +300,8 @@ def make_linop(t):
     raise ValueError(u["kind"])
 
 
-def build(t, cplx, registry=None, exact=False):
-    """the real sigpy Prox object of a tree"""
+def build(t, cplx, registry=None, exact=False, layout=None):
+    """the real sigpy Prox object of a tree (layout: memory layout of every ndarray parameter handed to a constructor)"""
     from sigpy import prox
     k = t["t"]
     sh = t.get("shape")
@@ -253,29 +309,29 @@ def build(t, cplx, registry=None, exact=False):
     if k == "noop":
         p = prox.NoOp(sh)
     elif k == "l1reg":
-        p = prox.L1Reg(sh, f(t["lamda"]))
+        p = prox.L1Reg(sh, weights_array(t, layout) if t.get("w") is not None else f(t["lamda"]))
     elif k == "l2reg":
-        y = None if t["y"] is None else _arr(t["y"], sh, cplx, exact=exact)
-        h = None if t.get("h") is None else build(t["h"], cplx, registry, exact)
+        y = None if t["y"] is None else _arr(t["y"], sh, cplx, exact=exact, layout=layout)
+        h = None if t.get("h") is None else build(t["h"], cplx, registry, exact, layout)
         p = prox.L2Reg(sh, f(t["lamda"]), y=y, proxh=h)
     elif k == "l2proj":
-        p = prox.L2Proj(sh, f(t["eps"]), y=_arr(t["y"], sh, cplx), axes=t["axes"])
+        p = prox.L2Proj(sh, f(t["eps"]), y=_arr(t["y"], sh, cplx, layout=layout), axes=t["axes"])
     elif k == "linf":
-        p = prox.LInfProj(sh, f(t["eps"]), bias=None if t["bias"] is None else _arr(t["bias"], sh, cplx))
+        p = prox.LInfProj(sh, f(t["eps"]), bias=None if t["bias"] is None else _arr(t["bias"], sh, cplx, layout=layout))
     elif k == "l1proj":
         p = prox.L1Proj(sh, f(t["eps"]))
     elif k == "box":
-        lo = _arr([(v, 0) for v in t["lo"]], sh, False, exact=exact)
-        hi = _arr([(v, 0) for v in t["hi"]], sh, False, exact=exact)
+        lo = _arr([(v, 0) for v in t["lo"]], sh, False, exact=exact, layout=layout)
+        hi = _arr([(v, 0) for v in t["hi"]], sh, False, exact=exact, layout=layout)
         p = prox.BoxConstraint(sh, lo, hi)
     elif k == "psd":
         p = prox.PsdProj(sh)
     elif k == "conj":
-        p = prox.Conj(build(t["p"], cplx, registry, exact))
+        p = prox.Conj(build(t["p"], cplx, registry, exact, layout))
     elif k == "stack":
-        p = prox.Stack([build(q, cplx, registry, exact) for q in t["ps"]])
+        p = prox.Stack([build(q, cplx, registry, exact, layout) for q in t["ps"]])
     elif k == "unitary":
-        p = prox.UnitaryTransform(build(t["p"], cplx, registry, exact), make_linop(t))
+        p = prox.UnitaryTransform(build(t["p"], cplx, registry, exact, layout), make_linop(t))
     else:
         raise ValueError(k)
     if registry is not None:
@@ -355,7 +411,26 @@ def gen_leaf(rng, sh, cplx, ph, allow=("noop", "l1reg", "l2reg", "l2proj", "linf
     if k == "noop":
         return dict(t="noop", shape=sh)
     if k == "l1reg":
-        return dict(t="l1reg", shape=sh, lamda=str(rpos(rng)))
+        t = dict(t="l1reg", shape=sh, lamda=str(rpos(rng)))
+        if rng.random() < 0.45:
+            # lamda as an ndarray of per-entry weights (>= 0, zeros = unpenalised entries, ties), in a storage dtype that
+            # represents them exactly, full-shape or last-axis (broadcast), any memory layout
+            # (float32 weights are left out on purpose: lamda * alpha is then rounded to float32, a 1e-8 relative change of
+            # the threshold that is the parameter's own precision, not a defect, and far above the 1e-12 of the comparison)
+            dt = rng.choice(["float64", "float64", "float64", "int64"])
+            if dt == "int64":
+                gen = lambda: Fr(rng.randint(0, 4))
+            else:
+                gen = lambda: rpos(rng) if rng.random() < 0.85 else Fr(0)
+            bc = len(sh) > 1 and rng.random() < 0.25
+            if bc:
+                row = [gen() for _ in range(sh[-1])]
+                w = row * (n // sh[-1])
+            else:
+                w = [gen() for _ in range(n)]
+            t["w"] = [str(v) for v in w]
+            t["wspec"] = dict(dtype=dt, bcast=bool(bc), layout=rng.choice(LAYOUTS))
+        return t
     if k == "l2reg":
         y = None
         if rng.random() < 0.6:
@@ -512,6 +587,12 @@ def needs_norm(t):
     return contains(t, "l2proj")
 
 
+def contains_weights(t):
+    if t["t"] == "l1reg" and t.get("w") is not None:
+        return True
+    return any(contains_weights(c) for c in children(t))
+
+
 def needs_mixing(t):
     if t["t"] == "unitary":
         return True
@@ -544,8 +625,8 @@ def gen_case(rng, kind=None):
     # structured inputs: exactly on the threshold / on the ball boundary / interior / zero
     r = rng.random()
     if t["t"] == "l1reg" and r < 0.3:
-        lam = Fr(t["lamda"]) * alpha
-        mags = [lam * rng.choice([1, -1, 1, 2, Fr(1, 2), 0]) for _ in range(n)]
+        lams = [Fr(v) * alpha for v in (t["w"] if t.get("w") is not None else [t["lamda"]] * n)]
+        mags = [lam * rng.choice([1, -1, 1, 2, Fr(1, 2), 0]) for lam in lams]
     elif t["t"] == "linf" and r < 0.3:
         e = Fr(t["eps"])
         mags = [e * rng.choice([1, -1, 2, Fr(1, 2), 0, -3]) for _ in range(n)]
@@ -566,7 +647,52 @@ def gen_case(rng, kind=None):
     x = [times(m, u) for m, u in zip(mags, ph)]
     if not cplx:
         x = [(a, "0") for a, _ in x]
-    return dict(tree=t, alpha=str(alpha), shape=sh, x=[list(z) for z in x], cplx=bool(cplx and True))
+    c = dict(tree=t, alpha=str(alpha), shape=sh, x=[list(z) for z in x], cplx=bool(cplx and True))
+
+    def other_input():
+        if rng.random() < 0.3:
+            return dict(x=c["x"])  # the same data with another alpha: a parameter sweep on one object
+        zs = [times(m, u) for m, u in zip(rvals(rng, n), ph)]
+        return dict(x=[[a, b if cplx else "0"] for a, b in zs])
+    decorate(rng, c, lambda: str(rpos(rng)), other_input)
+    return c
+
+
+def decorate(rng, c, new_alpha, other_input):
+    """the circumstances of the call the property quantifies over implicitly: P(alpha, y) is a function of (alpha, y), so
+    it must be the minimiser whatever was evaluated before on the same object (`hist`: earlier calls with other step
+    sizes / data, some of them on a second live object built from the same description) and whatever the memory layout
+    of y (`ylayout`) and of the ndarray parameters given to the constructors (`playout`) is"""
+    if rng.random() < 0.4:
+        hist = []
+        for _ in range(rng.choice([1, 1, 2, 3])):
+            e = dict(alpha=c["alpha"] if rng.random() < 0.15 else new_alpha(), obj=1 if rng.random() < 0.2 else 0)
+            e.update(other_input())
+            hist.append(e)
+        c["hist"] = hist
+    if rng.random() < 0.3:
+        c["ylayout"] = rng.choice(LAYOUTS[1:])
+    if rng.random() < 0.3:
+        c["playout"] = rng.choice(LAYOUTS[1:])
+    return c
+
+
+def falpha(a):
+    return float(Fr(a)) if isinstance(a, str) else float(a)
+
+
+def entry_input(c, e):
+    """the input array of the main call (e = c) or of a history entry, in the case's input layout"""
+    if "y" in e:
+        y = np.array(e["y"], copy=True)
+    elif "y_re" in e:
+        y = np.array(e["y_re"], dtype=float)
+        if e.get("y_im") is not None:
+            y = y + 1j * np.array(e["y_im"], dtype=float)
+        y = y.reshape(c["shape"])
+    else:
+        y = to_float(e["x"], c["shape"], c["cplx"])
+    return relayout(y, c.get("ylayout"))
 
 
 def strip_phase(t):
@@ -603,10 +729,16 @@ def parse_reply(r):
 
 
 def run_impl(c, registry=None):
-    P = build(c["tree"], c["cplx"], registry)
-    x = to_float(c["x"], c["shape"], c["cplx"])
-    x0 = x.copy()
-    out = P(float(Fr(c["alpha"])), x)
+    """the value of the case's (last) call on the real object, after the case's earlier calls on the same object(s)"""
+    objs = {0: build(c["tree"], c["cplx"], registry, layout=c.get("playout"))}
+    for e in c.get("hist") or []:
+        o = e.get("obj", 0)
+        if o not in objs:
+            objs[o] = build(c["tree"], c["cplx"], registry, layout=c.get("playout"))
+        objs[o](falpha(e["alpha"]), entry_input(c, e))
+    x = entry_input(c, c)
+    x0 = np.array(x, copy=True)
+    out = objs[0](float(Fr(c["alpha"])), x)
     return np.asarray(out), x0
 
 
@@ -647,8 +779,20 @@ def _corr_stream(ctx, cases, stream, op="call"):
             impl, _ = run_impl(c)
         except Exception as e:  # noqa
             impl = "err %s" % type(e).__name__
-        ctx.case(ln, sample=dict(line=ln[:240], reply=r[:160]) if ctx.evaluations % 61 == 0 else None)
+        ctx.case((ln, json.dumps([c.get("hist"), c.get("ylayout"), c.get("playout")]))
+                 if (c.get("hist") or c.get("ylayout") or c.get("playout")) else ln,
+                 sample=dict(line=ln[:240], reply=r[:160]) if ctx.evaluations % 61 == 0 else None)
         ctx.count("tree:" + describe(c["tree"]).split("(")[0])
+        if c.get("hist"):
+            ctx.count("history:%d-earlier-calls" % len(c["hist"]))
+            if any(e.get("obj") for e in c["hist"]):
+                ctx.count("history:two-live-objects")
+        if c.get("ylayout"):
+            ctx.count("input-layout:" + c["ylayout"])
+        if c.get("playout"):
+            ctx.count("param-layout:" + c["playout"])
+        if contains_weights(c["tree"]):
+            ctx.count("l1reg:array-lamda")
         ctx.count("dtype:" + ("complex" if c["cplx"] else "real"))
         ctx.count("ndim:%d" % len(c["shape"]))
         if isinstance(impl, str) and isinstance(model, str):
@@ -1048,7 +1192,12 @@ def correspond(ctx):
     ctx.rule = ("cases = (Prox tree over NoOp/L1Reg/L2Reg(+bias,+proxh)/L2Proj(+bias,+axes)/LInfProj(+bias)/L1Proj/"
                 "BoxConstraint/Conj/Stack/UnitaryTransform, alpha > 0, shape 1-3 D, exactly representable input: small "
                 "rationals times Pythagorean unit phases, zeros, ties, points on thresholds / ball boundaries, vectors with "
-                "rational norm); distinct by protocol line; a case counts only when every modulus / norm needed is rational")
+                "rational norm); L1Reg with a scalar lamda or an ndarray of per-entry weights (float64 / int64, full "
+                "shape or last-axis broadcast; the model's value is the Stack of one scalar L1Reg per entry); the compared call is "
+                "preceded, in 40% of the cases, by 1-3 earlier calls on the same object (other alpha, other or the same data; some "
+                "on a second live object of the same description) and the input / the ndarray parameters are, in 30% each, "
+                "Fortran-ordered, strided views or negatively strided; distinct by protocol line (+ history and layouts); a case "
+                "counts only when every modulus / norm needed is rational")
     ctx.assumptions += [
         "numpy.linalg.eigh is a trusted primitive: psd_proj_prox assumes its spectral contract (real eigenvalues w, "
         "VᴴV = I, V diag(w) Vᴴ = A) at the matrix psd_proj passes to it; the contract is checked numerically on every run "
@@ -1118,10 +1267,13 @@ def subgrad_check(t, r, d, cplx, path="top"):
             raise Bad("certificate", "NoOp: residual is not zero", float(np.max(np.abs(d))))
         return
     if k == "l1reg":
-        lam = float(Fr(t["lamda"]))
-        if np.max(np.abs(d), initial=0) > lam + np.sqrt(tl) or abs(lam * n1(r) - inner(d, r)) > tl * max(1, r.size):
+        # g(x) = sum_i lam_i |x_i| (lam a scalar or per-entry weights): d in dg(r) <=> |d_i| <= lam_i, sum lam_i |r_i| = Re<d, r>
+        lam = wfloat(t, r.shape)
+        g = float(np.sum(lam * np.abs(r)))
+        if np.max(np.abs(d) - lam, initial=-1) > np.sqrt(tl) or abs(g - inner(d, r)) > tl * max(1, r.size):
             raise Bad("certificate", "L1Reg: (y-p)/alpha is not in lamda*subdifferential of the l1 norm at p",
-                      dict(linf_d=float(np.max(np.abs(d), initial=0)), lam=lam, gap=lam * n1(r) - inner(d, r)))
+                      dict(max_excess_d_over_lam=float(np.max(np.abs(d) - lam, initial=-1)),
+                           lam=np.asarray(lam).ravel().tolist()[:16], gap=g - inner(d, r)))
         return
     if k == "l2reg":
         lam = float(Fr(t["lamda"]))
@@ -1208,7 +1360,7 @@ def objective(t, x, cplx):
     if k == "noop":
         return 0.0, True
     if k == "l1reg":
-        return float(Fr(t["lamda"])) * float(np.sum(np.abs(x))), True
+        return float(np.sum(wfloat(t, x.shape) * np.abs(x))), True
     if k == "l2reg":
         z = 0 if t["y"] is None else barr(t["y"], x.shape, cplx)
         v = float(Fr(t["lamda"])) / 2 * float(np.sum(np.abs(x - z) ** 2))
@@ -1354,14 +1506,32 @@ def unitary_ok(t, cplx):
 def evaluate(c, rng=None, extra=True):
     """run the real code on a case and check the property; returns None or dict(key, what, observed, expected)"""
     f, out = run_and_check(c, rng)
+    if f is not None and f.get("_call") is not None and f["_call"]["index"] > 0:
+        # does the failing call fail by itself?  If a fresh object returns the minimiser for the very same (alpha, y), the
+        # defect is state carried over from earlier calls: name it so
+        e = f["_call"]
+        c1 = {k: v for k, v in c.items() if k not in ("hist", "x", "y", "y_re", "y_im")}
+        c1.update(alpha=e["alpha"], y=np.array(e["y"], copy=True))
+        try:
+            f1, _ = run_and_check(c1, None, trailing=False)
+        except Exception:  # noqa
+            f1 = f
+        if f1 is None:
+            f["key"] = "C11:%s:depends-on-earlier-calls" % f["key"].split(":")[1]
+            f["what"] = "call #%d on the same object (after %d earlier calls; a fresh object is exact on this call): %s" % (
+                e["index"] + 1, e["index"], f["what"])
+    if f is not None:
+        f.pop("_call", None)
     if f is not None or not extra or not is_projection(c["tree"]):
         return f
     # idempotence: the projection of the (feasible) result is the result
     c2 = dict(c)
     c2.pop("x", None)
+    c2.pop("hist", None)
     c2["y"] = np.array(out, copy=True)
     f2, out2 = run_and_check(c2, None)
     if f2 is not None:
+        f2.pop("_call", None)
         f2["what"] = "second application P(alpha, P(alpha, y)): " + f2["what"]
         return f2
     tl = 1e-9 * max(1.0, float(np.max(np.abs(out), initial=0)))
@@ -1371,47 +1541,67 @@ def evaluate(c, rng=None, extra=True):
     return None
 
 
-def run_and_check(c, rng=None):
+def run_and_check(c, rng=None, trailing=True):
+    """the case's call sequence on the real object(s): the earlier calls `hist` (each one checked: every call of a Prox
+    object must return the minimiser for ITS alpha and input), then the main call (checked with the objective
+    comparison as well), then one more call that only serves to see whether earlier results get overwritten"""
     t, cplx = c["tree"], c["cplx"]
-    alpha = float(Fr(c["alpha"])) if isinstance(c["alpha"], str) else float(c["alpha"])
-    y = c["y"] if "y" in c else to_float(c["x"], c["shape"], cplx)
     if not unitary_ok(t, cplx):
         return None, None  # outside the domain (A not unitary)
     registry = {}
+    objs = {}
     try:
-        P = build(t, cplx, registry)
+        objs[0] = build(t, cplx, registry, layout=c.get("playout"))
+        for e in c.get("hist") or []:
+            if e.get("obj", 0) not in objs:
+                objs[e["obj"]] = build(t, cplx, registry, layout=c.get("playout"))
     except Exception as e:  # noqa
         return dict(key=class_key(t, "construct"), what="constructor raised %r" % (e,), observed=repr(e), expected="a Prox"), None
-    y0 = y.copy()
+    seq = [(e.get("obj", 0), falpha(e["alpha"]), entry_input(c, e)) for e in (c.get("hist") or [])]
+    seq.append((0, falpha(c["alpha"]), entry_input(c, c)))
+    main = len(seq) - 1
+    if trailing:
+        seq.append((0, seq[main][1], np.array(seq[main][2], copy=True) + (1.0 + 0.5j if cplx else 1.0)))
+    top, out, fail_at, start = None, None, None, 0
+    results = []   # (index, object returned, private copy)
     with spy() as calls:
-        try:
-            out = P(alpha, y)
-            err = None
-        except Exception as e:  # noqa
-            out, err = None, e
-    top = None
-    if err is not None:
-        top = Bad("raise", "raised %r (cause %r) on a valid request" % (err, err.__cause__))
-    else:
-        # P(alpha, y) is a value: a later call on the same object must not change an earlier result
-        # (a prox that hands out a cached work buffer makes Stack([P, P]) and solvers that keep results wrong)
-        kept = np.array(out, copy=True)
-        try:
-            P(alpha, y0 + (1.0 + 0.5j if cplx else 1.0))
-        except Exception:  # noqa
-            pass
-        if not np.array_equal(np.asarray(out), kept, equal_nan=True):
-            top = Bad("reuses-output-buffer", "a later call on the same Prox object overwrote an earlier result")
-            out = kept
-        if top is None:
+        for i, (o, alpha, y) in enumerate(seq):
+            y0 = np.array(y, copy=True)
+            start = len(calls)
             try:
-                check_call(t, alpha, y0, np.asarray(out), cplx, rng)
-            except Bad as b:
-                top = b
+                res = objs[o](alpha, y)
+                err = None
+            except Exception as e:  # noqa
+                res, err = None, e
+            if i > main:
+                err = None  # the trailing call is not part of the case; only its side effects are looked at
+            if err is not None:
+                top = Bad("raise", "raised %r (cause %r) on a valid request" % (err, err.__cause__))
+            else:
+                # P(alpha, y) is a value: a later call on the same object must not change an earlier result
+                # (a prox that hands out a cached work buffer makes Stack([P, P]) and solvers that keep results wrong)
+                for (j, robj, kept) in results:
+                    if isinstance(robj, np.ndarray) and not np.array_equal(robj, kept, equal_nan=True):
+                        top = Bad("reuses-output-buffer", "a later call on the same Prox object overwrote an earlier result")
+                        i, (o, alpha, y0) = j, (seq[j][0], seq[j][1], seq[j][2])
+                        start = 0
+                        break
+                if top is None and i <= main:
+                    results.append((i, res, np.array(res, copy=True) if isinstance(res, np.ndarray) else res))
+                    try:
+                        check_call(t, alpha, y0, np.asarray(res), cplx, rng if i == main else None)
+                    except Bad as b:
+                        top = b
+                    if i == main:
+                        out = results[-1][2]
+            if top is not None:
+                fail_at = dict(index=i, alpha=alpha, y=np.array(y0, copy=True), later=(i > 0))
+                break
     if top is None:
         return None, np.asarray(out)
-    # blame: the deepest recorded call that fails its own certificate
-    for (obj, a, x0, res) in calls:
+    alpha, y0 = fail_at["alpha"], fail_at["y"]
+    # blame: the deepest recorded call (of the failing top-level call) that fails its own certificate
+    for (obj, a, x0, res) in calls[start:]:
         st = registry.get(id(obj))
         if st is None:
             continue
@@ -1420,15 +1610,15 @@ def run_and_check(c, rng=None):
             if not children(st):
                 return dict(key=leaf_key(st, "raise", a, x0), what="%s raised %r (cause %r) on a valid request" % (
                     describe(st), res, res.__cause__), observed=repr(res.__cause__ or res),
-                    expected="result of shape %s" % (list(x0.shape),)), None
+                    expected="result of shape %s" % (list(x0.shape),), _call=fail_at), None
             continue
         try:
             check_call(st, float(a), x0, np.asarray(res), cplx or np.iscomplexobj(x0), None)
         except Bad as b:
             return dict(key=leaf_key(st, b.kind, a, x0), what="%s: %s" % (describe(st), b.what), observed=b.detail,
-                        expected="the exact minimiser"), None
+                        expected="the exact minimiser", _call=fail_at), None
     return dict(key=leaf_key(t, top.kind, alpha, y0), what="%s: %s" % (describe(t), top.what), observed=top.detail,
-                expected="the exact minimiser in the input's shape"), None
+                expected="the exact minimiser in the input's shape", _call=None if top.kind == "reuses-output-buffer" else fail_at), None
 
 
 def diagnose(c, direct=False):
@@ -1563,10 +1753,16 @@ def gen_search_case(rng):
     if r < 0.15:  # PsdProj directly
         n = rng.choice([2, 3, 3, 4])
         y, kind = psd_inputs(rng, n, cplx)
-        return dict(tree=dict(t="psd", shape=[n, n]), alpha=fstr(rng.uniform(0.1, 4)), shape=[n, n], y=y, cplx=cplx, note=kind)
+        c = dict(tree=dict(t="psd", shape=[n, n]), alpha=fstr(rng.uniform(0.1, 4)), shape=[n, n], y=y, cplx=cplx, note=kind)
+
+        def other_psd():
+            v = psd_inputs(rng, n, cplx)[0]
+            return dict(y_re=np.real(v).ravel().tolist(), y_im=np.imag(v).ravel().tolist() if cplx else None)
+        return decorate(rng, c, lambda: fstr(rng.uniform(0.1, 4)), other_psd)
     if r < 0.25:  # ≥2-D L1Proj incl. feasible inputs
         c = l1nd_cases(rng, 1)[0]
-        return c
+        return decorate(rng, c, lambda: str(rpos(rng)),
+                        lambda: dict(x=[[str(Fr(z[0]) * f), str(Fr(z[1]) * f)] for f in [rng.choice([Fr(1, 3), 1, 2, 5])] for z in c["x"]]))
     if r < 0.5:
         sh = rshape(rng, 16)
         t = gen_search_tree(rng, sh, cplx, 0)
@@ -1592,13 +1788,26 @@ def gen_search_case(rng):
         elif u < 0.2 and i:
             y[i] = y[rng.randrange(i)]
     if t["t"] == "l1reg" and rng.random() < 0.3:
-        y = np.sign(np.real(y)) * float(Fr(t["lamda"])) * float(Fr(alpha)) + 0 * y
+        y = np.sign(np.real(y)) * np.ravel(wfloat(t)) * float(Fr(alpha)) + 0 * y
     if t["t"] in ("l2proj", "l1proj", "linf") and rng.random() < 0.4:
         y = y * rng.choice([1e-2, 0.1, 0.3])  # feasible inputs
     if t["t"] == "psd":
         y, _ = psd_inputs(rng, sh[0], cplx)
     y = y.reshape(sh)
-    return dict(tree=t, alpha=alpha, shape=sh, y=y, cplx=cplx)
+    c = dict(tree=t, alpha=alpha, shape=sh, y=y, cplx=cplx)
+
+    def other_input():
+        if rng.random() < 0.3:
+            v = y
+        elif t["t"] == "psd":
+            v, _ = psd_inputs(rng, sh[0], cplx)
+        else:
+            v = np.array([rng.gauss(0, sc) for _ in range(n)])
+            if cplx:
+                v = v + 1j * np.array([rng.gauss(0, sc) for _ in range(n)])
+        return dict(y_re=np.real(v).ravel().tolist(), y_im=np.imag(v).ravel().tolist() if cplx else None)
+    decorate(rng, c, lambda: fstr(rng.choice([rng.uniform(0.05, 5), rng.choice([0.5, 1, 2, 4, 0.25, 8])])), other_input)
+    return c
 
 
 def contains_fft(t):
@@ -1654,8 +1863,15 @@ def search(ctx, budget):
     n = int(1500 * budget)
     for _ in range(n):
         c = gen_search_case(rng)
-        ctx.case(("oracle", describe(c["tree"]), c["alpha"], c["shape"], repr(np.asarray(c.get("y", c.get("x"))).tolist())[:200]))
+        ctx.case(("oracle", describe(c["tree"]), c["alpha"], c["shape"], repr(np.asarray(c.get("y", c.get("x"))).tolist())[:200],
+                  len(c.get("hist") or []), c.get("ylayout"), c.get("playout")))
         ctx.count("oracle:" + describe(c["tree"]).split("(")[0])
+        if c.get("hist"):
+            ctx.count("oracle-history:%d-earlier-calls" % len(c["hist"]))
+        if c.get("ylayout") or c.get("playout"):
+            ctx.count("oracle-layout:y=%s,params=%s" % (c.get("ylayout", "C"), c.get("playout", "C")))
+        if contains_weights(c["tree"]):
+            ctx.count("oracle:l1reg-array-lamda")
         f = evaluate(c, rng)
         if f:
             report(ctx, c, f, "search")
